@@ -263,7 +263,11 @@ func doForEachAsync(s *simrt.Sim, cl *asyncClient, c any, seq int) {
 	cb := func(slot uint64, v any) {
 		h := fnv(0, slot, digest(v))
 		s.Log(tagCbStart, id, h)
-		for y := s.Draw("cb-yield", 4); y > 0; y-- {
+		y := s.Draw("cb-yield", 4)
+		if s.Draw("cb-yield-tail", 40) == 0 {
+			y = 10 + s.Draw("cb-yield-long", 30) // one callback delayed for a long time
+		}
+		for ; y > 0; y-- {
 			simrt.Yield()
 		}
 		if reentrant && s.Draw("cb-reenter-now", 3) == 0 {
@@ -1083,6 +1087,9 @@ func readers(s *simrt.Sim, top *asyncClient, sameCall bool, trace *[]string) []*
 	}
 
 	k := 2 + s.Draw("clients", 3)
+	if s.Draw("clients-tail", 12) == 0 {
+		k = 5 + s.Draw("clients-many", 6)
+	}
 	clients := make([]*asyncClient, k)
 	plans := make([][]*roCall, k)
 	if sameCall {
